@@ -86,6 +86,10 @@ impl MemfsEntryOpts {
             0o40755
         });
 
+        // Only the permission bits of the given mode are honored, the file type bits always come from
+        // the kind of the entry
+        let mode = mode & 0o7777;
+
         // OR given mode with defaults for physical entries
         self.mode = if self.link {
             mode | 0o120000
